@@ -12,6 +12,13 @@
 (*   CallOutput    one call of an intercepted output (ordinal, payload     *)
 (*                 write, body, result write)                              *)
 (*   Control       discard_recording / force_sample_recording /            *)
+(*                 "subop": the operation calls an operation of a class    *)
+(*                 registered as skipped (the documented way to nest       *)
+(*                 operations): pure pass-through, while recording and     *)
+(*                 while replaying /                                        *)
+(*                 "disable": disable_recording() while the operation runs *)
+(*                 (kill switch): the recording in flight is dropped, the  *)
+(*                 rest of the operation is pass-through /                 *)
 (*                 record_data / play_data called by the operation         *)
 (*   OpEnd         the operation body returns / raises / is interrupted    *)
 (*   Finalise      the finally-block of start_recording: keep decision,    *)
@@ -217,6 +224,9 @@ Control(k) ==
            S1 == CASE k = "discard" -> Disc(S0)
                    [] k = "force"   -> Forc(S0)
                    [] k = "data"    -> IF InRecMode(rec) THEN Wr(S0, <<"user", "k1", 0>>, <<"data", "d1">>) ELSE S0
+                   \* disable_recording() while the operation runs ("kill switch"): nothing is captured from now on, so
+                   \* the recording in flight can no longer be complete - it is dropped
+                   [] k = "disable" -> [Disc(S0) EXCEPT !.r.enabled = FALSE]
                    [] OTHER         -> S0
            st == [Step0 EXCEPT !.kind = k]
        IN
